@@ -10,14 +10,55 @@ sys.path.insert(0, "/verif/scripts")
 import check  # noqa: E402
 
 
+def show_trace(path):
+    """Print the last schedule points of the failing run with function names (addr2line)."""
+    import subprocess
+    try:
+        lines = open(path).read().splitlines()
+    except FileNotFoundError:
+        print("(no trace written)")
+        return
+    maps = []
+    for l in lines:
+        if l.startswith("MAP "):
+            f = l[4:].split()
+            lo, hi = [int(x, 16) for x in f[0].split("-")]
+            off = int(f[2], 16)
+            maps.append((lo, hi, off, f[-1]))
+    pts = [l for l in lines if not l.startswith("MAP ")]
+    by_mod = {}
+    for l in pts:
+        pc = int(l.split("pc=")[1], 16) if "pc=" in l and "(nil)" not in l.split("pc=")[1] else 0
+        for (lo, hi, off, mod) in maps:
+            if lo <= pc < hi:
+                by_mod.setdefault(mod, set()).add(pc - lo + off)
+    names = {}
+    for mod, addrs in by_mod.items():
+        al = sorted(addrs)
+        out = subprocess.run(["addr2line", "-f", "-C", "-e", mod] + [hex(a) for a in al], capture_output=True, text=True).stdout.splitlines()
+        for i, a in enumerate(al):
+            fn = out[2 * i] if 2 * i < len(out) else "?"
+            loc = out[2 * i + 1] if 2 * i + 1 < len(out) else ""
+            names[(mod, a)] = "%s (%s)" % (fn[:90], loc.split("/")[-1])
+    print("last schedule points before the violation (step, thread, kind, address, function):")
+    for l in pts[-120:]:
+        pc = int(l.split("pc=")[1], 16) if "pc=" in l and "(nil)" not in l.split("pc=")[1] else 0
+        where = ""
+        for (lo, hi, off, mod) in maps:
+            if lo <= pc < hi:
+                where = names.get((mod, pc - lo + off), "")
+        print("  " + l.split(" pc=")[0] + "  " + where)
+
+
 def main():
     path = sys.argv[1]
     rp = json.load(open(path))
     prop, tier = rp["property"], rp.get("tier", "quick")
     os.makedirs(check.TMP, exist_ok=True)
     check.build()
+    trace = "--trace" in sys.argv[2:]
     a = check.run_replay(prop, tier, rp)
-    b = check.run_replay(prop, tier, rp)
+    b = check.run_replay(prop, tier, rp, trace_path=(check.TMP + "/trace.%d.txt" % os.getpid()) if trace else None)
     cls = check.vclass(prop, a)
     print("replay of %s (mode %s, seed %d, %d program ops, %d scripted decisions)" % (
         path, rp.get("mode", "seed"), rp["seed"], len(rp.get("program") or []), len(rp.get("script") or [])))
@@ -38,6 +79,8 @@ def main():
         print("forced decisions (thread, its decision counter -> action):")
         for d in rp["script"][:200]:
             print("  T%d #%d: %s %d" % (d[0], d[2], names.get(d[1], str(d[1])), d[3]))
+    if trace:
+        show_trace(check.TMP + "/trace.%d.txt" % os.getpid())
     print("VIOLATION property=%s replay=%s" % (prop, path))
     sys.exit(1)
 
